@@ -22,6 +22,10 @@ IMMS = {"#f": "IMM_FALSE", "#t": "IMM_TRUE", "()": "IMM_NULL"}
 CHARS = [0x61, 0x62, 0x63, 0x7a, 0x30, 0x20, 0x3bb, 0x20ac, 0x1f600, 0xe9]
 
 
+def is_fix(n):
+    return -MAXFIX - 1 <= n <= MAXFIX
+
+
 def flo_bits(x):
     return struct.unpack("<Q", struct.pack("<d", x))[0]
 
@@ -50,7 +54,7 @@ def gen_int(rng):
 
 FLO_SPECIAL = [("0.0", 0.0), ("-0.0", -0.0), ("(- 0.0)", -0.0), ("+inf.0", float("inf")), ("-inf.0", float("-inf")),
                ("(expt 2. 100)", 2.0 ** 100), ("(inexact (expt 2 100))", 2.0 ** 100), ("(- (expt 2. 63))", -(2.0 ** 63)),
-               ("(expt 2. 63)", 2.0 ** 63), ("(expt 2. 62)", 2.0 ** 62), ("(/ 1. (expt 2. 1030))", 2.0 ** -1030)]
+               ("(expt 2. 63)", 2.0 ** 63), ("(expt 2. 62)", 2.0 ** 62), ("(expt 2. -1030)", 2.0 ** -1030)]
 
 
 def gen_flo(rng):
@@ -194,7 +198,7 @@ def expr(v, rng, C):
     if t == "int":
         n = v[1]
         r = rng.random()
-        if abs(n) > MAXFIX:
+        if not is_fix(n):
             if r < 0.25:
                 return str(n)
             k = n.bit_length() + rng.choice([1, 64, 130, 200])
@@ -579,7 +583,7 @@ def inner(ctx, d, exe, emb, C, n):
     while i < len(reqs):
         a, b, cls, glen, dep, bd = meta[i]
         same = a == b
-        nt = a[0] not in ("char", "imm") and not (a[0] == "int" and abs(a[1]) <= MAXFIX)
+        nt = a[0] not in ("char", "imm") and not (a[0] == "int" and is_fix(a[1]))
         ctx.count(glen, key=(reqs[i], reqs[i + 1]), nontrivial=nt)
         ctx.cov["traces_validated_against_impl"] += glen
         g_i, g_m, g_q = io[i:i + glen], mo[i:i + glen], reqs[i:i + glen]
@@ -645,7 +649,7 @@ def outer_pairs(ctx, d, exe, C, n):
         hreq.append("hash %s %x" % (token(b, C) if b[0] != "sym" else "i0", MAXFIX))
     hm = ctx.run_model(exe, hreq)
     for k, ((a, b, cls), e, o) in enumerate(zip(meta, exprs, out)):
-        nt = a[0] not in ("char", "imm") and not (a[0] == "int" and abs(a[1]) <= MAXFIX)
+        nt = a[0] not in ("char", "imm") and not (a[0] == "int" and is_fix(a[1]))
         ctx.count(1, key=e, nontrivial=nt)
         o = unquote(o)
         f = (o or "").split(" ")
@@ -709,7 +713,7 @@ def gen_universe(rng, kind):
         tries += 1
         if kind == 0:
             v = rng.choice([gen_int, lambda r: ("char", r.choice(CHARS)), lambda r: ("imm", r.choice(list(IMMS)))])(rng)
-            if v[0] == "int" and abs(v[1]) > MAXFIX:
+            if v[0] == "int" and not is_fix(v[1]):
                 v = ("int", rng.randrange(-1000, 1000))
         elif kind == 1:
             v = rng.choice([gen_int, gen_int, gen_flo, gen_str, lambda r: ("char", r.choice(CHARS))])(rng)
@@ -722,7 +726,7 @@ def gen_universe(rng, kind):
         if vals and rng.random() < 0.3 and kind in (1, 2, 3):
             v = rng.choice(vals)      # an equivalent but distinct object
         # objects that are eq? whenever they are equal: immediates and the (shared) empty vector
-        imm = v[0] in ("char", "imm") or (v[0] == "int" and abs(v[1]) <= MAXFIX) or v == ("vec", ())
+        imm = v[0] in ("char", "imm") or (v[0] == "int" and is_fix(v[1])) or v == ("vec", ())
         if imm:
             if v in seen_imm:
                 continue
@@ -739,7 +743,7 @@ def classes(vals, kind):
     for i, v in enumerate(vals):
         def eq(a, b, ia, ib):
             if kind == 0:
-                return a == b and (a[0] in ("char", "imm") or (a[0] == "int" and abs(a[1]) <= MAXFIX))
+                return a == b and (a[0] in ("char", "imm") or (a[0] == "int" and is_fix(a[1])))
             if kind == 1:
                 return a == b and a[0] in ("int", "flo", "char", "imm")
             if kind in (2, 3):
